@@ -9,7 +9,7 @@
      spec_ok = negb wf || the target file is well-formed in the target format (wf_osu_text / wf_qua_docb / wf_sm_textb /
                B.4 written form) and its timeline equals the source file's, start and end of every note and every tempo point
                within the coarser of the two formats' resolutions at the local tempo (res_pair) + tol;
-     corr_ok = the target timeline is the one the composition of the DENOTATIONS predicts (source denotation -> what the
+     corr_ok = negb wf || the target timeline is the one the composition of the DENOTATIONS predicts (source denotation -> what the
                target's writer semantics does to a time -> compare with the target's denotation): whole milliseconds by
                truncation toward zero for osu / Quaver, the nearest snap of the 1/96 Farey grid for BMS / StepMania (exact on
                the grid).  This is sharper than spec (e.g. round() instead of int() stays within 1 ms but is not
@@ -275,16 +275,16 @@ Definition check (c : c09case) : verdict :=
           let lanes := match b with FBms => BMSSpec.lanes (layout_ix tlay) | _ => [] end in
           let wf := wf_src && keys_ok && conv_ok tol b keys shift lanes rf s in
           match out with
-          | None => {| corr_ok := false; spec_ok := negb wf; wf_ok := negb dom || wf |}     (* the pipeline raised *)
+          | None => {| corr_ok := negb wf; spec_ok := negb wf; wf_ok := negb dom || wf |}     (* the pipeline raised *)
           | Some t =>
               let '(wf_t, ott) := tgt_read t in
               match ott with
-              | None => {| corr_ok := false; spec_ok := negb wf; wf_ok := negb dom || wf |}  (* the target does not denote *)
+              | None => {| corr_ok := negb wf; spec_ok := negb wf; wf_ok := negb dom || wf |}  (* the target does not denote *)
               | Some tt0 =>
                   let tt := tl_norm tt0 in
                   let same_game := match b, tgt_fmt t with
                                    | FOsu, FOsu | FQua, FQua | FSM, FSM | FBms, FBms => true | _, _ => false end in
-                  {| corr_ok := same_game && expected_ok tol BPM_EPS b s tt;
+                  {| corr_ok := negb wf || (same_game && expected_ok tol BPM_EPS b s tt);
                      spec_ok := negb wf || (same_game && wf_t && timeline_close_byb rf BPM_EPS tt s);
                      wf_ok := negb dom || wf |}
               end
